@@ -440,3 +440,73 @@ def lattice_tissue(nx, ny, kind="square", npts=0, w=8.0, h=8.0, rng=None, theta=
     if theta:
         spec = similarity(spec, theta=theta)
     return spec
+
+
+# --------------------------------------------------------------------------- time series
+def junction_ids(spec):
+    deg = {}
+    for _, a, b in spec["edges"]:
+        deg[a] = deg.get(a, 0) + 1
+        deg[b] = deg.get(b, 0) + 1
+    return [v for v, n in deg.items() if n >= 3]
+
+
+def min_junction_spacing(spec):
+    pos = {v[0]: (v[1], v[2]) for v in spec["vertices"]}
+    j = junction_ids(spec)
+    P = np.array([pos[v] for v in j])
+    if len(P) < 2:
+        return 1.0
+    d = np.sqrt(((P[:, None, :] - P[None, :, :]) ** 2).sum(-1))
+    d[d == 0] = np.inf
+    return float(d.min())
+
+
+def series(rng, base, nframes, field="random", amp_frac=0.3, snap=8, renumber=True, times=None):
+    """frames of one tissue: frame t+1 = frame t displaced by a field whose junction displacement stays below
+    amp_frac * (half the smallest junction spacing) and below 8% of the extent.  Every frame is renumbered independently.
+    returns (list of specs, list of times, truth) with truth[t][vid at frame t] = vid at frame t+1"""
+    pos = {v[0]: np.array([v[1], v[2]], dtype=float) for v in base["vertices"]}
+    P = np.array(list(pos.values()))
+    extent = float(max(P[:, 0].max() - P[:, 0].min(), P[:, 1].max() - P[:, 1].min()))
+    centre = P.mean(axis=0)
+    spacing = min_junction_spacing(base)
+    amp = min(amp_frac * 0.5 * spacing, 0.05 * extent)
+    specs, maps = [], []
+    cur = {k: p.copy() for k, p in pos.items()}
+    idmaps = []
+    s = float(2 ** snap)
+    for t in range(nframes):
+        if t > 0:
+            if field == "random":
+                for k in cur:
+                    ang = rng.uniform(0, 2 * math.pi)
+                    r = rng.uniform(0, amp)
+                    cur[k] = cur[k] + r * np.array([math.cos(ang), math.sin(ang)])
+            elif field == "affine":
+                A = np.eye(2) + rng.uniform(-1, 1, size=(2, 2)) * (0.5 * amp / extent)
+                tvec = rng.uniform(-0.3, 0.3, size=2) * amp
+                for k in cur:
+                    cur[k] = centre + A @ (cur[k] - centre) + tvec
+            else:  # flowing: rotation-like flow
+                w = rng.uniform(-1, 1) * amp / extent
+                for k in cur:
+                    d = cur[k] - centre
+                    cur[k] = cur[k] + w * np.array([-d[1], d[0]]) + 0.2 * amp * np.array([1.0, 0.5])
+        fr = {"vertices": [[i, round(cur[i][0] * s) / s, round(cur[i][1] * s) / s] for i, _, _ in base["vertices"]],
+              "edges": [list(e) for e in base["edges"]], "cells": [[c, list(v)] for c, v in base["cells"]],
+              "ifaces": base.get("ifaces", []), "meta": dict(base.get("meta", {}), frame=t)}
+        if renumber:
+            fr = relabel(fr, rng, gaps=True, shift=True, flip=0.0)
+            idmaps.append(fr["maps"]["v"])
+        else:
+            idmaps.append({i: i for i, _, _ in base["vertices"]})
+        specs.append(fr)
+    truth = []
+    for t in range(nframes - 1):
+        truth.append({idmaps[t][i]: idmaps[t + 1][i] for i in pos})
+    if times is None:
+        times = [0.0]
+        for t in range(1, nframes):
+            times.append(times[-1] + float(2.0 ** int(rng.integers(-2, 3))))
+    return specs, times, truth
